@@ -167,6 +167,9 @@ def execute(sc):
     leaves, cls = {}, []
     for i, (c, size) in enumerate(spec):
       v, c2 = _leaf(c, size, L, rs)
+      shape2 = {8: (2, 4), 33: (3, 11), 64: (8, 8)}.get(v.size)
+      if shape2 is not None and (i + v.size + sc['data_seed']) % 2:
+        v = v.reshape(shape2)      # matrices as well as vectors
       leaves[f'l{i}'] = v
       cls.append(c2)
     return leaves, cls
@@ -280,7 +283,9 @@ def execute(sc):
           return np.where(np.abs(v) > 2.5 * s_, 2.5 * s_ * np.sign(v), v)
         exactc = sum(w * clip(t[k]) for t, w in act) / wsum if wsum > 0 else exact
         bound = max(np.abs(clip(t[k])).max() for t, _ in act) if wsum > 0 else 0.0
-        if np.max(np.abs(o - exactc)) > bound * (1 + 1e-5) + 1e-6 * max(bound, float(np.max(np.abs(exactc)))) + 1e-30:
+        # float32 sigma of a (near-)constant leaf is a rounding residue of size ~1e-7*|v|, not exactly 0
+        vmax = max(float(np.max(np.abs(t[k]))) for t, _ in act)
+        if np.max(np.abs(o - exactc)) > bound * (1 + 1e-5) + 1e-6 * max(bound, vmax) + 1e-30:
           violation('Q3', 'Q3:aggregate-further-than-s-from-clipped-weighted-mean:terngrad', f'{label}: leaf {k}')
       elif name == 'rotated':
         size = clients[0][1][k].size
